@@ -313,10 +313,23 @@ func init() {
 		if hist != 0 && len(res.Occs[cd.u]) > 0 {
 			c.Hit("occurrence-after-earlier-parse")
 		}
+		// a slice the program stored in the field is the program's: another variable of the program may refer to the same elements
+		// (here: a second slice header over the same array, taken before the parse). Replacing the option's value must not write into them
+		var alias []string
+		if pre, ok := b.Vals[cd.u].Interface().([]string); ok && len(pre) > 0 {
+			alias = pre
+		}
 		rr := runParser(b, cfg, argv, runOpts{})
 		if rr.Panic != nil {
 			c.Fail("panic|"+rr.PanicSite, fmt.Sprint(rr.Panic))
 			return
+		}
+		if alias != nil && hist == 0 {
+			c.Hit("preset-slice-aliased")
+			if want := kind.Initial.([]string); !sameStrings(alias, want) {
+				c.Fail("elements-of-the-program's-own-slice-overwritten", map[string]interface{}{"stored_before_the_parse": want, "the_program's_other_reference_now_reads": alias, "field": ref.Show(b.Vals[cd.u])})
+				return
+			}
 		}
 		c.Outcome(key, errType(rr.Err), fmt.Sprint(len(res.Occs[cd.u])), ref.Show(b.Vals[cd.u]))
 		if res.Fault != nil || res.Grey {
@@ -346,7 +359,7 @@ func init() {
 			"x {None, HelpFlag|PassDoubleDash (on three of the placements)} x {fresh parser; on tag-built declarations also: the same parser has already parsed a line that gave U two occurrences and was rejected for an undefined option / the same line without the undefined option, accepted - U then holds what that line left unless it occurs again, in which case it holds only what the new line denotes}; every sequence of <= 3 (quick) / <= 4 (thorough) units over all spellings of U with 1-3 values and with the empty attached value (--name= or -u=), bystander options, command words and a plain word, plus beyond that bound every unit repeated 5, 8, 9, 10, 16, 17 and 33 times; " +
 			"oracle = command-line reference model (CLM) + conversion model; compared on every successful parse; states = distinct (declaration, CLM state), distinct = distinct (declaration, error class, #occurrences, value of U)",
 		Assumptions:  []string{"multi-valued optional-argument options are kept out (bare occurrence semantics undocumented)", "flags of a cluster that precede an unknown character are not asserted"},
-		RequiredHits: []string{"compared", "repeated-occurrence", "model-fault", "late-built", "earlier-parse", "occurrence-after-earlier-parse"},
+		RequiredHits: []string{"compared", "repeated-occurrence", "model-fault", "late-built", "earlier-parse", "occurrence-after-earlier-parse", "preset-slice-aliased"},
 		Bound:        [2]string{"all unit sequences of length <= 3", "all unit sequences of length <= 4"},
 		BudgetS:      [2]int{170, 1500},
 	})
